@@ -206,16 +206,35 @@ def stream_scrape(ctx, n):
 
 # ------------------------------------------------------------------ http session / robots
 class RawHandler:
-    def __init__(self, raw, close, segs_rng):
-        self.raw, self.close_after, self.rng = raw, close, segs_rng
+    """`raw`: the bytes answered to every request, or a list: the i-th request (over all connections, whatever
+    host it is addressed to) gets the i-th entry, the last one repeating — a server that behaves in steps."""
+
+    def __init__(self, raw, close, segs_rng, state=None):
+        self.raws = raw if isinstance(raw, list) else [raw]
+        self.close_after, self.rng = close, segs_rng
+        self.state = state if state is not None else {'i': 0}
         self.buf = b''
 
     def on_write(self, conn, data):
         self.buf += data
         if b'\r\n\r\n' in self.buf:
             self.buf = b''
-            cuts = fakenet.random_cuts(self.rng, len(self.raw))
-            asyncio.ensure_future(conn.send_segments(fakenet.segment(self.raw, cuts), eof=self.close_after))
+            i = min(self.state['i'], len(self.raws) - 1)
+            self.state['i'] += 1
+            raw = self.raws[i]
+            last = i == len(self.raws) - 1
+            cuts = fakenet.random_cuts(self.rng, len(raw))
+            asyncio.ensure_future(conn.send_segments(fakenet.segment(raw, cuts), eof=self.close_after if last else False))
+
+
+def redirect_raw(rng, location):
+    code = rng.choice([301, 302, 303, 307, 308])
+    body = rng.choice([b'', b'moved'])
+    return ('HTTP/1.1 %d Moved\r\nLocation: %s\r\nContent-Length: %d\r\n\r\n' % (code, location, len(body))).encode('latin-1') + body
+
+
+ROBOTS_HOPS = ['/r2.txt', 'http://a.test/other.txt', 'http://b.test/robots.txt', 'https://a.test/robots.txt', 'http://a.test:81/robots.txt',
+               'http://www.a.test/robots.txt', '//b.test/r', 'https://b.test:8443/x', 'http://a.test./robots.txt', 'HTTP://A.TEST/robots.txt']
 
 
 def http_once(raw, close, seed, robots=False):
@@ -228,7 +247,8 @@ def http_once(raw, close, seed, robots=False):
     async def go():
         net = fakenet.FakeNet()
         rng = random.Random(seed)
-        net.default = lambda: RawHandler(raw, close, rng)
+        state = {'i': 0}
+        net.default = lambda: RawHandler(raw, close, rng, state)
         with net:
             pool = ConnectionPool(resolver=fakenet.FakeResolver())
             client = Client(connection_pool=pool)
@@ -270,13 +290,19 @@ def stream_http(ctx, n, robots=False):
         if robots:
             body = hostile.robots_doc(rng)
             raw, close = hostile.http_response(rng, body=body, ctype='text/plain')
+            r = rng.random()
+            if r < 0.45:
+                # robots.txt moved: 1-3 redirects (same origin, other scheme / port / host), then the answer
+                final = raw if rng.random() < 0.5 else (b'HTTP/1.1 200 OK\r\nContent-Type: text/plain\r\nContent-Length: %d\r\n\r\n' % len(body)) + body
+                raw = [redirect_raw(rng, rng.choice(ROBOTS_HOPS)) for _ in range(rng.choice([1, 1, 2, 3]))] + [final]
         else:
             raw, close = hostile.http_response(rng)
         seed = rng.randrange(1 << 30)
         first = first or {'stream': name, 'raw': raw, 'close': close, 'seed': seed}
         r = http_once(raw, close, seed, robots=robots)
         tag = 'ok' if r is None else r if isinstance(r, str) else type(r).__name__
-        ctx.case((name, raw, close), tags=['%s:%s' % (name, tag)])
+        ctx.case((name, tuple(raw) if isinstance(raw, list) else raw, close),
+                 tags=['%s:%s' % (name, tag)] + (['%s:moved-%d' % (name, len(raw) - 1)] if isinstance(raw, list) else []))
         if isinstance(r, Exception) and not isinstance(r, remote_errors()):
             cls, where = classify(r)
             ctx.fail(cls, where, {'stream': name, 'raw': raw, 'close': close, 'seed': seed},
@@ -521,7 +547,7 @@ def replay(ctx, case, kind=None, where=None):
             cls, w = classify(e)
             ctx.fail(cls, w, case, 'scrape_info raised %r' % e)
     elif s in ('http', 'robots'):
-        ctx.case((s, case['raw']))
+        ctx.case((s, repr(case['raw'])))
         r = http_once(case['raw'], case['close'], case['seed'], robots=(s == 'robots'))
         if isinstance(r, Exception) and not isinstance(r, remote_errors()):
             cls, w = classify(r)
